@@ -13,7 +13,7 @@ def run(ctx):
                     label='fq (+ sched) + destructor', workers=8, vacuity_exempt=VAC, timeout=3000, heap='16g')
     exe = pc.build(ctx, 2)
     rng = random.Random(ctx.seed + 47)
-    progs = ['main:new1,fq1,fq2,fq3,fq4,del', 'main:new2,up,fq1,fq2,sync,del;p2:up,fq5,fq6,sched7',
+    progs = ['main:new1,fq1,fq2,fq3,fq4,del', 'main:new2,pfq1,pfq2,placed3,pfq4,del', 'main:new2,up,fq1,fq2,sync,del;p2:up,fq5,fq6,sched7',
              'main:new2,bulk1.3,fq4,fq5,resize1,fq6,del']
     progs += pc.random_programs(rng, 8 if thorough else 2, ['fq', 'fq', 'sched', 'bulk'], resize=False)
     progs = [p for p in progs if 'new0' not in p]
